@@ -6,7 +6,7 @@
   in keys; absent pair = 0 : 0; `IsCW v w` = `w` is a candidate and `d w o > d o w` for every other
   candidate `o`.
 -/
-import VotelibProofs.Lemmas.RankedPairs
+import VotelibProofs.Lemmas.WidestPaths
 import VotelibModel.CondorcetRanked
 namespace VL.C05
 open VL VL.Condorcet
@@ -186,6 +186,38 @@ theorem kemeny_in_smith {v : Pairwise} (hwf : WF v) {n : Nat} {r : List Slot} (h
     obtain ⟨k, rfl⟩ : ∃ k, n = k + 1 := ⟨n - 1, by omega⟩
     rw [hr]; rfl
 
+/-- **Ranked pairs' first place lies in the Smith set** whenever it answers (all three win scorers): no pair
+    from outside the Smith set into it is ever locked (the reverse pair sorts strictly before it and is
+    either locked — then the pair would close a cycle — or refused because of an even stronger locked
+    crossing pair), so the unique first source cannot be an outsider. -/
+theorem rankedpairs_in_smith {v : Pairwise} (hwf : WF v) (sc : Scorer) {n : Nat} (hn : 1 ≤ n) {r : List Slot}
+    (h : rankedPairs sc v n = .ok r) : ∃ c, r.head? = some (Slot.cand c) ∧ c ∈ smithSet v :=
+  rankedPairs_first_in_smith hwf sc hn h
+
+/-- **The locked pairs never contain a cycle**: `_is_path` finds every chain of locked pairs, so a pair whose
+    reverse direction is already connected is refused.  (For every list of pairs without self-pairs.) -/
+theorem lockPairs_acyclic {pairs : List Pair} (hself : ∀ p ∈ pairs, p.1 ≠ p.2) :
+    ∀ x, ¬ Relation.TransGen (fun a b => (a, b) ∈ lockPairs pairs) x x := lockPairs_acyclic' hself
+
+/-- `_is_path` decides reachability through the given pairs exactly -/
+theorem isPath_iff {pairs : List Pair} {source sink : Cand} (hne : source ≠ sink) :
+    isPath pairs source sink = true ↔ Relation.TransGen (fun a b => (a, b) ∈ pairs) source sink :=
+  ⟨isPath_sound, isPath_complete hne⟩
+
+/-- **Tideman alternative's answer lies in the Smith set** of the pairwise counts of the profile, whenever it
+    answers: after the first restriction to the Smith set every remaining candidate is a member of it. -/
+theorem tideman_in_smith {p : Profile} {r : List Slot} (h : tideman true p = .ok r) :
+    ∃ c, r = [Slot.cand c] ∧ c ∈ smithSet (rankedToCondorcet p) := by
+  unfold tideman at h
+  split at h
+  · simp at h
+  · rename_i c htier
+    split at h
+    · simp only [Except.ok.injEq] at h
+      exact ⟨c, h.symm, tidemanTier_in_smith p _ p (Or.inl rfl) c htier⟩
+    · simp at h
+  · simp at h
+
 /-! ### nobody who took part in a pairwise contest is dropped -/
 
 /-- **Copeland**: with at least as many seats as candidates every candidate is listed. -/
@@ -247,6 +279,17 @@ theorem copeland_defining {v : Pairwise} (hwf : WF v) (n : Nat) :
   intro c _
   rw [getD_copelandScoresRaw, winsBy_eq_filter hwf, lossesOf_eq_filter hwf]
 
+/-- **Schulze's strongest paths are correct**: for two distinct candidates the entry of `widest_paths` is the
+    strength of some chain of pairwise wins from `a` to `b` (the minimum of the win counts along it, a pair
+    that is not a win weighing `0`), and no chain from `a` to `b` is stronger — value = max over paths of min
+    edge.  (`winWeight_eq`: the weight of `(x, y)` is `d x y` if `d x y > d y x`, else `0`.) -/
+theorem widestPaths_correct {v : Pairwise} (hwf : WF v) {a b : Cand} (hb : b ∈ candidates v) (hab : a ≠ b) :
+    PathStr (winWeight v) a b (pget (widestPaths v) (a, b)) ∧
+      ∀ s, PathStr (winWeight v) a b s → s ≤ pget (widestPaths v) (a, b) := widestPaths_maxmin hwf hb hab
+
+theorem winWeight_is_win_count {v : Pairwise} (hwf : WF v) (x y : Cand) :
+    winWeight v (x, y) = if pget v (y, x) < pget v (x, y) then pget v (x, y) else 0 := winWeight_eq hwf x y
+
 /-- **Minimax ranks by the worst defeat over ALL opponents.**  The value handed to `get_n_best` for candidate
     `c` is the negated worst defeat, the maximum over every other candidate `o` of the strength of "`o` over
     `c`" under the scorer (winning votes: `d o c` if `d o c > d c o` else `0`; margins: `d o c - d c o`;
@@ -297,6 +340,17 @@ theorem rankedpairs_dropped_witness :
 theorem minimax_never_loser_fixed :
     minimax .winningVotes [((0, 2), 3), ((1, 2), 3), ((2, 1), 1)] 1 = [Slot.tie [0, 1]] ∧
     minimaxPresent .winningVotes [((0, 2), 3), ((1, 2), 3), ((2, 1), 1)] 1 = [Slot.cand 0] := by decide +kernel
+
+/-- `benham_in_smith` is FALSE of the current code: a first-preference tie for the last place makes
+    `eliminate_one` return `Tie` objects, which the subsetter matches with no candidate, so BOTH tied
+    candidates — here the whole Smith set `{1, 2}` — are eliminated at once and an outsider is elected. -/
+def exBenhamTie : Profile :=
+  [([.one 2, .one 1, .one 3], 1), ([.one 2, .one 1], 1), ([.one 1, .one 2, .one 3], 2),
+   ([.one 0, .one 2, .one 1, .one 3], 3), ([.one 3, .one 1, .one 2, .one 0], 3)]
+theorem benham_in_smith_witness :
+    benham exBenhamTie = .ok [Slot.cand 3] ∧ WF (rankedToCondorcet exBenhamTie) ∧
+      3 ∉ smithSet (rankedToCondorcet exBenhamTie) ∧ 1 ∈ smithSet (rankedToCondorcet exBenhamTie) := by
+  decide +kernel
 
 /-- the hybrids crash on a first-preference elimination tie instead of reporting it or refusing -/
 theorem benham_elimination_tie_witness : benham exCycleProfile = .error (.other "IndexError") := by decide +kernel
